@@ -1,6 +1,6 @@
 (* Model of skyllh/core/parameters.py: Parameter, ParameterSet, ParameterModelMapper
    (current /repo, i.e. after the fix: commits 26ba7e8, a6f00b3, 38184bc, 9f2340d,
-   b3880d5, afa632e).  Definitions only.
+   b3880d5, afa632e, f7597e3).  Definitions only.
 
    Parameter objects are mutable and are referenced (not contained) by the
    parameter sets, so they live in a store
@@ -25,9 +25,13 @@ Definition store := list param.
 Definition with_value (p : param) (v : Z) : param :=
   mkParam (p_name p) (p_initial p) (p_isfixed p) (p_valmin p) (p_valmax p) v.
 
+(* the bound test of the setter is `not ((v >= valmin) and (v <= valmax))` (fix f7597e3: the negated
+   form also rejects NaN); `and` short-circuits: a false first operand decides *)
+Definition set_below (v lo : Z) : bool := negb (set_ge v lo).
+Definition set_above (v hi : Z) : bool := negb (set_le v hi).
+
 (* Parameter.value setter: the checks (the assignment is done by the caller).
-   `(v < valmin) or (v > valmax)` short-circuits; comparing with None raises
-   TypeError. *)
+   comparing with None raises TypeError. *)
 Definition setter_check (p : param) (v : Z) : res unit :=
   if p_isfixed p then
     (if set_fixed_ne v (p_initial p) then Err ValueError else Ok tt)
@@ -689,9 +693,10 @@ Fixpoint trace (w : world) (ops : list op) : list (world * option err) :=
 Definition obs_param (p : param) :=
   (p_name p, p_initial p, p_isfixed p, p_valmin p, p_valmax p, p_value p).
 
-(* the vector of floating parameter values the harness supplies: 100, 101, ... *)
+(* the vector of floating parameter values the harness supplies, in units of 1/8:
+   (2^27+1)/8 + i = 16777216.125 + i  (non-integer, not representable in float32) *)
 Definition vec_for (s : pset) : list Z :=
-  map (fun i => 100 + i) (arange (length (ps_fln s))).
+  map (fun i => 134217729 + 8 * i) (arange (length (ps_fln s))).
 
 (* dictionaries are compared as finite maps: sorted by key *)
 Fixpoint dins (kv : Z * Z) (l : list (Z * Z)) : list (Z * Z) :=
